@@ -63,9 +63,10 @@ Root == 0
 (* Sequence helpers.                                                       *)
 
 Range(s) == {s[i] : i \in 1 .. Len(s)}
-Without(s, i) == [j \in 1 .. (Len(s) - 1) |-> IF j < i THEN s[j] ELSE s[j + 1]]
-Find(es, n) ==
-  LET I == {i \in 1 .. Len(es) : Norm(es[i].n) = Norm(n)}
+Without(s_, i) == LET s == s_ IN [j \in 1 .. (Len(s) - 1) |-> IF j < i THEN s[j] ELSE s[j + 1]]
+Find(es_, n) ==
+  LET es == es_
+      I == {i \in 1 .. Len(es) : Norm(es[i].n) = Norm(n)}
   IN IF I = {} THEN 0 ELSE CHOOSE i \in I : TRUE
 Strip(e) == [n |-> e.n, k |-> e.k, c |-> e.c]
 Visible(es) == SelectSeq(es, LAMBDA e : e.k = "d" \/ ~Hidden(e.n))
@@ -74,48 +75,54 @@ NewDir(pend) == [deleted |-> FALSE, lazy |-> TRUE, pend |-> pend, chg |-> 0, nc 
 NoRet == [k |-> "none", c |-> -1, list |-> <<>>, more |-> FALSE]
 ChildRet(e) == [k |-> e.k, c |-> e.c, list |-> <<>>, more |-> FALSE]
 
-SetDir(S, d, r) == [S EXCEPT !.dirs = (d :> r) @@ S.dirs]
-SetLeaf(S, c, r) == [S EXCEPT !.leaves = (c :> r) @@ S.leaves]
+\* (TLC evaluates an operator argument at every use of the parameter but a
+\* LET definition only once: state arguments are re-bound with LET.)
+SetDir(S_, d, r_) == LET S == S_  r == r_ IN [S EXCEPT !.dirs = (d :> r) @@ S.dirs]
+SetLeaf(S_, c, r_) == LET S == S_  r == r_ IN [S EXCEPT !.leaves = (c :> r) @@ S.leaves]
 
 -----------------------------------------------------------------------------
 (* Primitive state changes.                                                *)
 
 \* attach a child at the end of the list with a fresh cookie; modification.
-Attach(S, d, n, k, c) ==
-  LET r == S.dirs[d] IN
+Attach(S_, d, n, k, c) ==
+  LET S == S_  r == S.dirs[d] IN
   SetDir(S, d, [r EXCEPT !.ents = Append(r.ents, [n |-> n, k |-> k, c |-> c, ck |-> r.nc + 1]),
                          !.nc = r.nc + 1, !.chg = r.chg + 1])
 
 \* the same while instantiating lazy contents: no (required) change of chg.
-AttachQuiet(S, d, n, k, c) ==
-  LET r == S.dirs[d] IN
+AttachQuiet(S_, d, n, k, c) ==
+  LET S == S_  r == S.dirs[d] IN
   SetDir(S, d, [r EXCEPT !.ents = Append(r.ents, [n |-> n, k |-> k, c |-> c, ck |-> r.nc + 1]),
                          !.nc = r.nc + 1])
 
-Detach(S, d, i) ==
-  LET r == S.dirs[d] IN
+Detach(S_, d, i) ==
+  LET S == S_  r == S.dirs[d] IN
   SetDir(S, d, [r EXCEPT !.ents = Without(r.ents, i), !.chg = r.chg + 1])
 
-DetachName(S, d, n) == Detach(S, d, Find(S.dirs[d].ents, n))
+DetachName(S_, d, n) == LET S == S_ IN Detach(S, d, Find(S.dirs[d].ents, n))
 
 \* a new leaf object owned by one directory entry (or an existing symlink)
-MakeLeaf(S, k, c, t) ==
+MakeLeaf(S_, k, c, t) ==
+  LET S == S_ IN
   IF k = "symlink"
   THEN (IF c \in DOMAIN S.leaves THEN S ELSE SetLeaf(S, c, [k |-> "symlink", links |-> 0, t |-> t]))
   ELSE SetLeaf(S, c, [k |-> k, links |-> 1, t |-> ""])
 
-LinkUp(S, c) ==
+LinkUp(S_, c) ==
+  LET S == S_ IN
   IF S.leaves[c].k = "symlink" THEN S
   ELSE SetLeaf(S, c, [S.leaves[c] EXCEPT !.links = @ + 1])
 
-Unlink(S, c) ==
+Unlink(S_, c) ==
+  LET S == S_ IN
   IF S.leaves[c].k = "symlink" THEN S
   ELSE SetLeaf(S, c, [S.leaves[c] EXCEPT !.links = @ - 1])
 
 \* child description (used by CreateChildren and by lazy contents):
 \* [n, k, c, t, sub]; k = "d" creates a lazy directory c with contents sub.
 RECURSIVE AttachChildren(_, _, _, _, _)
-AttachChildren(S, d, ch, i, quiet) ==
+AttachChildren(S_, d, ch, i, quiet) ==
+  LET S == S_ IN
   IF i > Len(ch) THEN S
   ELSE LET x == ch[i]
            S1 == IF x.k = "d" THEN SetDir(S, x.c, NewDir(x.sub)) ELSE MakeLeaf(S, x.k, x.c, x.t)
@@ -124,8 +131,8 @@ AttachChildren(S, d, ch, i, quiet) ==
 
 \* Instantiate lazy contents (getContents()).  Not a modification that a
 \* client asked for, so chg need not move; `mat` remembers that it may.
-Mat(S, d) ==
-  LET r == S.dirs[d] IN
+Mat(S_, d) ==
+  LET S == S_  r == S.dirs[d] IN
   IF ~r.lazy THEN S
   ELSE LET S1 == SetDir(S, d, [r EXCEPT !.lazy = FALSE, !.pend = <<>>])
            S2 == AttachChildren(S1, d, r.pend, 1, TRUE)
@@ -133,15 +140,15 @@ Mat(S, d) ==
 
 \* "empty" in the sense of rmdir(): no directories, and only hidden leaves
 \* (the documented purpose of the hidden-files matcher).
-Deletable(S, d) == \A i \in 1 .. Len(S.dirs[d].ents) :
+Deletable(S_, d) == LET S == S_ IN \A i \in 1 .. Len(S.dirs[d].ents) :
                       S.dirs[d].ents[i].k # "d" /\ Hidden(S.dirs[d].ents[i].n)
 
 RECURSIVE UnlinkAll(_, _, _)
-UnlinkAll(S, es, i) == IF i > Len(es) THEN S ELSE UnlinkAll(Unlink(S, es[i].c), es, i + 1)
+UnlinkAll(S_, es_, i) == LET S == S_  es == es_ IN IF i > Len(es) THEN S ELSE UnlinkAll(Unlink(S, es[i].c), es, i + 1)
 
 \* markDeleted(): d is instantiated and Deletable; leftover hidden leaves go.
-MarkDeleted(S, d) ==
-  LET r == S.dirs[d] IN
+MarkDeleted(S_, d) ==
+  LET S == S_  r == S.dirs[d] IN
   IF r.deleted THEN S
   ELSE UnlinkAll(SetDir(S, d, [r EXCEPT !.deleted = TRUE, !.ents = <<>>, !.chg = r.chg + Len(r.ents)]),
                  r.ents, 1)
@@ -149,20 +156,22 @@ MarkDeleted(S, d) ==
 \* removeAllChildren(deleteSelf): recursive removal; lazy contents are
 \* dropped without being instantiated.
 RECURSIVE Clear(_, _, _), DropEntries(_, _, _)
-Clear(S, d, self) ==
-  LET r == S.dirs[d] IN
+Clear(S_, d, self) ==
+  LET S == S_  r == S.dirs[d] IN
   IF r.lazy
   THEN SetDir(S, d, [r EXCEPT !.lazy = FALSE, !.pend = <<>>, !.deleted = self])
   ELSE DropEntries(SetDir(S, d, [r EXCEPT !.ents = <<>>, !.chg = r.chg + Len(r.ents),
                                           !.deleted = r.deleted \/ self]),
                    r.ents, 1)
-DropEntries(S, es, i) ==
+DropEntries(S_, es_, i) ==
+  LET S == S_  es == es_ IN
   IF i > Len(es) THEN S
   ELSE DropEntries(IF es[i].k = "d" THEN Clear(S, es[i].c, TRUE) ELSE Unlink(S, es[i].c), es, i + 1)
 
 \* directories reachable from `top` through instantiated entries (incl. top)
 RECURSIVE ReachFrom(_, _, _)
-ReachFrom(S, todo, seen) ==
+ReachFrom(S, todo_, seen_) ==
+  LET todo == todo_  seen == seen_ IN
   IF todo = {} THEN seen
   ELSE LET d == CHOOSE x \in todo : TRUE
            kids == {S.dirs[d].ents[i].c : i \in {j \in 1 .. Len(S.dirs[d].ents) : S.dirs[d].ents[j].k = "d"}}
@@ -182,12 +191,13 @@ Refs(S, c) == RefsIn(S, DOMAIN S.dirs, c)
 (* Outcomes.                                                               *)
 
 Ok(S, ret) == {[st |-> "OK", S |-> S, ret |-> ret]}
-Err(S, E) == {[st |-> e, S |-> S, ret |-> NoRet] : e \in E}
+Err(S_, E) == LET S == S_ IN {[st |-> e, S |-> S, ret |-> NoRet] : e \in E}
 \* if any error condition holds the call fails with one of the applicable
 \* errors and changes nothing; otherwise the success outcome(s).
-Decide(S, E, good) == IF E # {} THEN Err(S, E) ELSE good
+Decide(S, E_, good) == LET E == E_ IN IF E # {} THEN Err(S, E) ELSE good
 
-AttachErrs(S, d, n) ==
+AttachErrs(S_, d, n) ==
+  LET S == S_ IN
   (IF S.dirs[d].deleted THEN {"NoEnt"} ELSE {}) \cup
   (IF Find(S.dirs[d].ents, n) # 0 THEN {"Exist"} ELSE {})
 
@@ -359,7 +369,8 @@ WalkKids(S, ds, i, seen) ==
 
 \* apply the removers that the filter invoked (rm = set of walk indices)
 RECURSIVE ApplyRemovers(_, _, _, _)
-ApplyRemovers(S, w, rm, i) ==
+ApplyRemovers(S_, w, rm, i) ==
+  LET S == S_ IN
   IF i > Len(w) THEN S
   ELSE LET x == w[i]
            S1 == IF i \notin rm THEN S
